@@ -211,7 +211,7 @@ def part_kernel(rep, thorough, rng):
 def part_model_only(rep, thorough):
     # the delta basis: by linearity this decides the clauses for every integer source field
     if thorough:
-        cfg = ik_cfg(sorted(KS.CART) + sorted(KS.HEX), "NSq", [0, 1, 2], [], True, True)
+        cfg = ik_cfg(sorted(KS.CART) + sorted(KS.HEX), "NSd", [0, 1, 2], [], True, True)
     else:
         cfg = ik_cfg(["C4v", "mC4", "H6v"], "NSd", [0, 1], [], True, False)
     st = run_model(rep, "MC_IrredKernel.tla", cfg, "c07_delta", dump=False, timeout=3000)
